@@ -1962,6 +1962,28 @@ foamToSExpr(Foam foam)
 
 #define croak(sx, msg)	comsgFatal(abNewNothing(sxiPos(sx)), msg)
 
+/*
+ * The s-expression reader keeps integers as BInts.  Only values of at most
+ * 62 bits are immediate; sxiToInteger (bintSmall) on a stored BInt returns
+ * bits of its address, so wider machine integers, e.g. (SInt 2^62), must be
+ * converted digit by digit.
+ */
+local AInt
+foamSExprToAInt(SExpr sxi)
+{
+	BInt	b = sxi->sxInteger.val;
+	AInt	n;
+	int	i;
+
+	if (bintIsSmall(b)) return bintSmall(b);
+
+	for (i = bitsizeof(AInt) - 1, n = 0; i >= 0; i--) {
+		n = (AInt) ((unsigned long) n << 1);
+		if (bintBit(b, i)) n++;
+	}
+	return bintIsNeg(b) ? (AInt) (0UL - (unsigned long) n) : n;
+}
+
 Foam
 foamFrSExpr(SExpr sx)
 {
@@ -2007,7 +2029,7 @@ foamFrSExpr(SExpr sx)
 		case 'w':
 		case 'i':
 			if (!sxiIntegerP(sxi)) croak(sxi, ALDOR_F_LoadNotInteger);
-			foamArgv(foam)[si].data = sxiToInteger(sxi);
+			foamArgv(foam)[si].data = foamSExprToAInt(sxi);
 			break;
 		case 't':
 		case 'o':
